@@ -431,7 +431,7 @@ static void env_init(void)
         memset(&proxy, 0, sizeof proxy);
         proxy.tcp_ip_fd = -1;
         pthread_mutex_init(&proxy.clnt_mutex, NULL);
-        opt_debug_level = 0; opt_max_clients = DEFAULT_MAX_CLIENTS; opt_buffer_count = DEFAULT_BUFFER_COUNT;
+        opt_debug_level = getenv("PROXYD_DEBUG") ? atoi(getenv("PROXYD_DEBUG")) : 0; opt_max_clients = DEFAULT_MAX_CLIENTS; opt_buffer_count = DEFAULT_BUFFER_COUNT;
         vbi_proxy_msg_set_debug_level(0);
         vbi_proxy_msg_set_logging(FALSE, 0, 0, NULL);
         struct sigaction act; memset(&act, 0, sizeof act); act.sa_handler = SIG_IGN; sigaction(SIGPIPE, &act, NULL);
